@@ -108,6 +108,14 @@ def cases(rng, tier):
         for n in (0, 1, 55, 56, 63, 64, 65, 111, 112, 119, 120, 127, 128, 129, 200):
             out.append({"op": "hmac", "bits": bits, "k": bytes(rng.randrange(256) for _ in range(rng.choice([0, 1, 32, 64, 65, 128, 129, 150]))).hex(),
                         "m": bytes(rng.randrange(256) for _ in range(n)).hex(), "kind": "hmac-selftest", "alg": f"HS{bits}"})
+    # HMAC keys with unusual leading / trailing octets: the key used is exactly the key given (no normalisation)
+    base_k = b"k" * 40
+    for alg in ("HS256", "HS384", "HS512"):
+        for pre in (b"", b"\xef\xbb\xbf", b" ", b"\n", b"\x00", b"\xff\xfe", b"\t\r\n"):
+            for suf in (b"", b"\n", b"\x00", b" "):
+                k1 = pre + base_k + suf
+                for k2 in {k1, base_k, base_k + suf, pre + base_k}:
+                    out.append({"op": "hskey", "alg": alg, "k1": k1.hex(), "k2": k2.hex(), "kind": "hs-key-variant"})
     payloads = PAYLOADS if tier == "thorough" else PAYLOADS[:5]
     for alg in R.ALL_ALGS:
         key = raw_key(alg)
@@ -184,6 +192,20 @@ def impl(c):
     if c["op"] == "hmac":
         import hmac, hashlib
         return {"mac": hmac.new(bytes.fromhex(c["k"]), bytes.fromhex(c["m"]), getattr(hashlib, f"sha{c['bits']}")).hexdigest()}
+    if c["op"] == "hskey":
+        j = JsonWebSignature()
+        k1, k2 = bytes.fromhex(c["k1"]), bytes.fromhex(c["k2"])
+        try:
+            tok = j.serialize_compact({"alg": c["alg"]}, b"payload", OctKey.import_key(k1))
+        except Exception as e:
+            return {"sign_error": type(e).__name__}
+        si, sseg = tok.rsplit(b".", 1)
+        res = {"ref_verifies_k1": bool(R.verify(c["alg"], k1, si, lenient(sseg))), "ref_verifies_k2": bool(R.verify(c["alg"], k2, si, lenient(sseg)))}
+        try:
+            j.deserialize_compact(tok, OctKey.import_key(k2)); res["verifies_k2"] = True
+        except Exception as e:
+            res["verifies_k2"] = False
+        return res
     jws = JsonWebSignature(algorithms=c["allowed"])
     key = the_key(c)
     try:
@@ -244,6 +266,8 @@ def verify_entries(c, pairs):
 
 
 def model_line(c):
+    if c["op"] == "hskey":
+        return None
     if c["op"] == "hmac":
         return {"op": "hmac", "bits": c["bits"], "k": c["k"], "m": c["m"], "key": {"oct": ""}, "headers": {}}
     kd = key_desc(c["alg"], c["kn"])
@@ -288,6 +312,15 @@ def ref_key(c):
 def oracle(c, out):
     v = []
     if c["op"] == "hmac":
+        return v
+    if c["op"] == "hskey":
+        sg = {"alg": c["alg"], "op": "hskey", "kind": "hmac-key-not-used-as-given"}
+        if "sign_error" in out:
+            return v           # the library refuses the key (e.g. it looks like an asymmetric key): nothing is signed
+        if not out["ref_verifies_k1"]:
+            v.append((f"token signed with the {len(c['k1']) // 2}-octet HMAC key {c['k1'][:16]}… does not verify under that key with the independent verifier", sg))
+        if out["verifies_k2"] != out["ref_verifies_k2"]:      # (HMAC itself zero-pads short keys: K and K‖00 are the same key to every implementation)
+            v.append((f"token signed with key {c['k1'][:16]}… {'verifies' if out['verifies_k2'] else 'does not verify'} under key {c['k2'][:16]}…", sg))
         return v
     sig = {"alg": c["alg"], "op": c["op"], "mutation": c["kind"].split(":")[0]}
     key = ref_key(c)
@@ -336,10 +369,14 @@ def oracle(c, out):
 
 
 def classify(c, out):
+    if c["op"] == "hskey":
+        return "hskey/" + ("refused" if "sign_error" in out else ("same" if c["k1"] == c["k2"] else "different"))
     return f"{c['op']}/{c['kind'].split(':')[0]}/" + ("ok" if "ok" in out else out.get("error", out.get("raised", "?")))
 
 
 def nontrivial(c, out):
+    if c["op"] == "hskey":
+        return [c["alg"], c["k1"], c["k2"]]
     if c["op"] == "hmac":
         return None
     return [c.get("token") or json.dumps(c["obj"], sort_keys=True), c["kn"], c["form"], c["allowed"]]
